@@ -439,7 +439,6 @@ def clack_parser(argv: Sequence[str]) -> dict[str, Any]:
         "-t",
         "--template",
         type=Path,
-        nargs=1,
         help=(
             "Optional path to the .zot template. If a template is not"
             " provided, we will infer what template to use based off of the"
